@@ -14,8 +14,19 @@ EXP = ['exp', 'log', 'softplus', 'entropy', 'pexp', 'plog']
 def c08_case(draw):
     fam = draw(st.sampled_from(['det_lp', 'det_lp', 'det_soc', 'det_exp', 'ro']))
     if fam == 'ro':
-        c = draw(romodel.ro_case(families=['box', 'l1', 'linf', 'poly', 'eq', 'l2', 'pn', 'kl'], max_cons=2))
-        return {'family': 'ro', 'ro': c}
+        c = draw(romodel.ro_case(families=['box', 'l1', 'linf', 'poly', 'eq', 'l2', 'l2', 'pn', 'kl'], max_cons=2))
+        if draw(st.booleans()):
+            for s_ in c['sets']:
+                for p_ in s_['pieces']:
+                    if p_['t'] == 'l2':
+                        p_['B'] = np.eye(s_['nz']).tolist()     # a plain ball: the compact layout of the second-order-cone dual
+                        p_['r'] = draw(st.sampled_from([1.0, 1.0, 2.0]))
+        # deterministic convex constraints on x next to the robust rows (satisfied at the witness with slack)
+        extra = []
+        for _ in range(draw(st.integers(0, 2))):
+            extra.append({'kind': draw(st.sampled_from(['exp', 'log', 'norm2', 'entropy', 'abs'])),
+                          'a': [float(draw(st.integers(-2, 2))) for _ in range(c['nx'])], 'slack': draw(st.sampled_from([0.5, 1.0]))})
+        return {'family': 'ro', 'ro': c, 'extra': extra}
     names = {'det_lp': ['abs', 'norm1', 'norminf'], 'det_soc': LPSOC, 'det_exp': LPSOC + EXP}[fam]
     cones = {'det_lp': False, 'det_soc': ['rsocone'], 'det_exp': ['rsocone', 'expcone', 'kldiv']}[fam]
     c = draw(detmodel.det_case(atom_names=names, bounded_by='dual', strict=True, max_atoms=2, cones=cones))
@@ -38,7 +49,8 @@ class C08(Prop):
     rule = ('deterministic models through the ro/dro front ends (LP / SOC / exp-cone atoms composed with affine maps; every '
             'variable carries one of the bound patterns free, >=0, <=0, finite lower, finite upper, box, fixed at 0, fixed at '
             'c!=0; <=,>=,== rows; objective built as a dual-feasible combination so the LP part is bounded; strictly feasible '
-            'witness) and ro models with robust rows (counterparts with multipliers in cones). Oracle: solve do_math() and '
+            'witness) and ro models with robust rows (counterparts with multipliers in cones; half of them with plain balls as ellipsoids; 0-2 '
+            'deterministic exp / log / entropy / 2-norm / abs constraints next to the robust rows). Oracle: solve do_math() and '
             'do_math(primal=False) with the same interface (HiGHS for LP, ECOS for conic, plus Gurobi for SOC) and require '
             'p + d = 0; weak duality (-d <= p) is reported separately. Non-trivial = at least one variable with a non-default '
             'bound pattern (deterministic) or a robust row (ro), and |optimum| > 1e-6; distinct by IR hash.')
@@ -59,6 +71,29 @@ class C08(Prop):
             rc = case['ro']
             m, h = romodel.build(rc)
             solver, kind = romodel.pick_solver(rc)
+            if case.get('extra'):
+                import rsome as rso
+                from rsome import eco_solver
+                xw = np.array(rc['witness']['x'], dtype=float)
+                xv = h['x']
+                for ex in case['extra']:
+                    a = np.array(ex['a'])
+                    if not np.any(a):
+                        continue
+                    u0 = float(a @ xw)
+                    if ex['kind'] == 'exp':
+                        m.st(rso.exp(a @ xv - u0) <= 1.0 + ex['slack'])
+                    elif ex['kind'] == 'log':
+                        m.st(rso.log(a @ xv - u0 + 2.0) >= np.log(2.0) - ex['slack'])
+                    elif ex['kind'] == 'entropy':
+                        m.st(rso.entropy(rso.vec(a @ xv - u0 + 0.5, 0.5 * (a @ xv) - 0.5 * u0 + 0.25)) >= -5.0)
+                    elif ex['kind'] == 'norm2':
+                        m.st(rso.norm(rso.vec(a @ xv - u0, xv[0] - xw[0])) <= ex['slack'])
+                    else:
+                        m.st(abs(a @ xv - u0) <= ex['slack'])
+                    labels.append('extra:' + ex['kind'])
+                    if ex['kind'] in ('exp', 'log', 'entropy', 'norm2'):
+                        solver, kind = eco_solver, 'conic'
             labels += ['fam:' + f for s in rc['sets'] for f in rosets.families_of(s)]
             nt_struct = True
         else:
@@ -73,7 +108,10 @@ class C08(Prop):
         labels.append('kind:' + kind)
         with quiet():
             primal = m.do_math()
-            dual = m.do_math(primal=False)
+            try:
+                dual = m.do_math(primal=False)
+            except Exception as ex:
+                return Outcome.fail('dual_raises:%s' % type(ex).__name__, 'the primal program was formulated but do_math(primal=False) raises %r' % (ex,), labels)
         sp = solve_formula(primal, solver)
         if sp is None or sp.x is None or np.isnan(sp.objval):
             return Outcome.skip('primal_not_solved', labels)
